@@ -41,16 +41,17 @@ type jobOutcome struct {
 }
 
 type segSummary struct {
-	Gen          string `json:"gen"`
-	Profile      string `json:"profile"`
-	Desc         string `json:"desc,omitempty"`
-	Planned      uint64 `json:"planned_cases"`
-	Cases        int64  `json:"cases"`
-	NonTrivial   int64  `json:"nontrivial"`
-	Violations   int64  `json:"violations"`
-	Inconclusive int64  `json:"inconclusive"`
-	Exhaustive   bool   `json:"exhaustive"`
-	Race         bool   `json:"race_build,omitempty"`
+	Gen          string  `json:"gen"`
+	Profile      string  `json:"profile"`
+	Desc         string  `json:"desc,omitempty"`
+	Planned      uint64  `json:"planned_cases"`
+	Cases        int64   `json:"cases"`
+	NonTrivial   int64   `json:"nontrivial"`
+	Violations   int64   `json:"violations"`
+	Inconclusive int64   `json:"inconclusive"`
+	Exhaustive   bool    `json:"exhaustive"`
+	Race         bool    `json:"race_build,omitempty"`
+	CPUs         float64 `json:"cpu_s"`
 }
 
 func cmdRun(args []string) int {
@@ -248,6 +249,7 @@ func cmdRun(args []string) int {
 			s.NonTrivial += o.res.NonTrivial
 			s.Violations += o.res.NViolations
 			s.Inconclusive += o.res.NInconcl
+			s.CPUs += float64(o.res.CPUms) / 1000
 			allViol = append(allViol, o.res.Violations...)
 			if extra := o.res.NViolations - int64(len(o.res.Violations)); extra > 0 {
 				// more violating cases in one batch than a worker records: they cannot be
